@@ -259,20 +259,29 @@ func (w *w7) setup() {
 
 func (w *w7) judgeFailure(err error, before []string) {
 	w.sim.Probe("c08.restore-failed")
-	deleteFailed := w.sim.Stats.FaultsFired["s3.del.fail_before"]+w.sim.Stats.FaultsFired["s3.del.fail_after"] > 0
+	// "... unless deleting them also fails": object by object
+	deleteFailed := map[string]bool{}
+	for _, k := range w.s3.FailedDeletes {
+		deleteFailed[k] = true
+	}
 	had := map[string]bool{}
 	for _, k := range before {
 		had[k] = true
 	}
+	leftover := false
 	for _, k := range w.s3.Keys(w7NS + "/" + w7Dst + "/") {
 		if had[k] {
 			continue
 		}
-		if deleteFailed {
-			w.sim.Probe("c08.leftover-with-failed-delete")
-			return
+		if deleteFailed[k] {
+			leftover = true
+			continue
 		}
-		w.sim.Fail("C08", "failed-restore-left-objects", "the restore failed (%v) and no delete failed, yet %s exists under the target topic", err, k)
+		w.sim.Fail("C08", "failed-restore-left-objects", "the restore failed (%v) and deleting %s did not fail (failed deletes: %v), yet it exists under the target topic", err, k, w.s3.FailedDeletes)
+		return
+	}
+	if leftover {
+		w.sim.Probe("c08.leftover-with-failed-delete")
 		return
 	}
 	w.sim.Probe("c08.failure-clean")
